@@ -289,6 +289,7 @@ def run(ctx):
                                      "all generated cases are distinct programs with at least two fibers"})
         if (not ok or ctx.failures) and not ctx.violations:
             search(ctx, exe)
+    core.init_contract(ctx, ["fiber_scheduler_wsd"])
     core.finish(ctx, extra_assumptions=ASSUME)
 
 
@@ -309,6 +310,8 @@ def search(ctx, exe):
 
 
 def replay(ctx, payload):
+    if payload.get("harness") == "h_init":
+        return core.replay_init(ctx, payload)
     exe = build(ctx)
     c = payload.get("case")
     if not exe or not c:
